@@ -70,6 +70,8 @@ var (
 	fWriteErr   = simrt.RegisterCounter("fault_response_write_error")
 	fRespLost   = simrt.RegisterCounter("fault_response_lost_then_retry")
 	fRxDelay    = simrt.RegisterCounter("fault_rxdelay_out_of_range")
+	fRotate     = simrt.RegisterCounter("fault_device_keys_rotated")
+	cRotRace    = simrt.RegisterCounter("probe_request_overtaken_by_key_rotation")
 	fRetryDup   = simrt.RegisterCounter("fault_duplicate_delivery")
 	fReqLost    = simrt.RegisterCounter("fault_request_lost")
 	fTruncResp  = simrt.RegisterCounter("fault_response_truncated")
@@ -79,8 +81,12 @@ var (
 // ---------------------------------------------------------------- storage
 
 type devRec struct {
-	idx     int
-	dev     spec.Device
+	idx int
+	// key generations of this DevEUI: re-provisioning / key rotation gives the
+	// same DevEUI new root keys. gens[g] is immutable; the current generation
+	// is a storage-side counter.
+	gens    []spec.Device
+	dev     spec.Device // generation 0 (EUIs are the same in all generations)
 	known   bool
 	asLabel string
 	homeNet lorawan.NetID
@@ -95,6 +101,27 @@ func nextNonce(i int) int { nonceCtr[i]++; return nonceCtr[i] }
 
 //go:norace
 func setNonce(i, v int) { nonceCtr[i] = v }
+
+// current key generation per device (storage state)
+var genIdx [64]int
+
+//go:norace
+func curGen(i int) int { return genIdx[i] }
+
+//go:norace
+func bumpGen(i, n int) int {
+	if genIdx[i]+1 < n {
+		genIdx[i]++
+	}
+	return genIdx[i]
+}
+
+//go:norace
+func resetGens() {
+	for i := range genIdx {
+		genIdx[i] = 0
+	}
+}
 
 // how many requests are inside the handler right now
 var inHandler int
@@ -122,6 +149,7 @@ type reqCtx struct {
 	bodyErrAt int // -1 none
 	writeErr  bool
 	// record
+	gen        int // key generation storage served to this request
 	gotKeys    bool
 	nonce      int
 	nsKEK      []byte
@@ -173,7 +201,9 @@ func (w *world) getDeviceKeys(devEUI lorawan.EUI64) (joinserver.DeviceKeys, erro
 	}
 	c.gotKeys = true
 	c.nonce = n
-	return joinserver.DeviceKeys{DevEUI: devEUI, NwkKey: lorawan.AES128Key(rec.dev.NwkKey), AppKey: lorawan.AES128Key(rec.dev.AppKey), JoinNonce: n}, nil
+	c.gen = curGen(rec.idx)
+	d := rec.gens[c.gen]
+	return joinserver.DeviceKeys{DevEUI: devEUI, NwkKey: lorawan.AES128Key(d.NwkKey), AppKey: lorawan.AES128Key(d.AppKey), JoinNonce: n}, nil
 }
 
 func (w *world) getKEK(label string) ([]byte, error) {
@@ -348,6 +378,7 @@ func build(sw *sim.World) {
 	w := &world{byEUI: map[lorawan.EUI64]*devRec{}, keks: map[string][]byte{}}
 	theWorld = w
 	resetHandlerCount()
+	resetGens()
 	r := sim.NewRand(simrt.Raw())
 	nDev := 1 + simrt.Choose(6)
 	nNS := 1 + simrt.Choose(3)
@@ -368,6 +399,13 @@ func build(sw *sim.World) {
 			rec.known = false
 		}
 		setNonce(i, r.Intn(1<<20))
+		rec.gens = []spec.Device{rec.dev}
+		for g := 1; g < 3; g++ {
+			d := rec.dev
+			r.Fill(d.NwkKey[:])
+			r.Fill(d.AppKey[:])
+			rec.gens = append(rec.gens, d)
+		}
 		w.devs = append(w.devs, rec)
 		w.byEUI[lorawan.EUI64(rec.dev.DevEUI)] = rec
 	}
@@ -422,6 +460,8 @@ func sortedKeys(m map[string][]byte) []string {
 
 type request struct {
 	kind      int // 0 join, 1..3 rejoin type 0..2, 4 homeNS
+	gen       int // key generation the device used to build the request
+	dev       spec.Device
 	rec       *devRec
 	nonce     uint16 // DevNonce or RJCount
 	phy       []byte
@@ -534,16 +574,24 @@ func nsTask(w *world, id int, netID lorawan.NetID, n int, sub uint64) {
 				c.bodyShort = true
 			}
 		}
+		// key rotation: the DevEUI is re-provisioned with new root keys (device
+		// and storage switch together; requests in flight see either side)
+		if faults && r.Intn(10) == 0 {
+			bumpGen(rq.rec.idx, len(rq.rec.gens))
+			simrt.Count(fRotate)
+		}
+		rq.gen = curGen(rq.rec.idx)
+		rq.dev = rq.rec.gens[rq.gen]
 		// the device builds its request with its own (spec) implementation
 		var netLE [3]byte
 		copy(netLE[:], spec.Reverse(netID[:]))
 		switch rq.kind {
 		case 0:
-			rq.phy = rq.rec.dev.JoinRequest(rq.nonce)
+			rq.phy = rq.dev.JoinRequest(rq.nonce)
 		case 1, 2, 3:
 			var k spec.Key
 			r.Fill(k[:])
-			rq.phy = rq.rec.dev.RejoinRequest(byte(rq.kind-1), netLE, rq.nonce, k)
+			rq.phy = rq.dev.RejoinRequest(byte(rq.kind-1), netLE, rq.nonce, k)
 		}
 		if rq.badMIC && rq.kind <= 3 {
 			rq.phy[len(rq.phy)-1-r.Intn(4)] ^= 1 << uint(r.Intn(8))
